@@ -1154,11 +1154,15 @@ static Token *preprocess2(Token *tok) {
     }
 
     if (equal(tok, "define")) {
+      if (tok->next->at_bol)
+        error_tok(tok, "no macro name given in #define directive");
       read_macro_definition(&tok, tok->next);
       continue;
     }
 
     if (equal(tok, "undef")) {
+      if (tok->next->at_bol)
+        error_tok(tok, "no macro name given in #undef directive");
       tok = tok->next;
       if (tok->kind != TK_IDENT)
         error_tok(tok, "macro name must be an identifier");
@@ -1176,6 +1180,8 @@ static Token *preprocess2(Token *tok) {
     }
 
     if (equal(tok, "ifdef")) {
+      if (tok->next->at_bol)
+        error_tok(tok, "no macro name given in #ifdef directive");
       if (tok->next->kind != TK_IDENT)
         error_tok(tok->next, "macro name must be an identifier");
       bool defined = find_macro(tok->next);
@@ -1187,6 +1193,8 @@ static Token *preprocess2(Token *tok) {
     }
 
     if (equal(tok, "ifndef")) {
+      if (tok->next->at_bol)
+        error_tok(tok, "no macro name given in #ifndef directive");
       if (tok->next->kind != TK_IDENT)
         error_tok(tok->next, "macro name must be an identifier");
       bool defined = find_macro(tok->next);
